@@ -84,6 +84,7 @@ func scenFold(out *scenOut, r *rng, thorough bool) {
 			}
 		}
 	}
+	kindsReachUpdate(out)
 	for _, end := range []string{"order", "kill"} {
 		for _, procs := range []int{1, 4} {
 			runtime.GOMAXPROCS(procs)
@@ -169,6 +170,56 @@ func sendThenEnd(out *scenOut, cause, slow string, idx int) {
 		}
 		out.fail(finding{Property: "C01", Class: "new", What: "Run did not return the model of the last Update", Input: desc,
 			Expected: fmt.Sprintf("version %d", atomic.LoadInt32(&ctl.versions)), Observed: fmt.Sprintf("version %d", got)})
+	}
+}
+
+// kindsReachUpdate: a message is a message, whatever its type: every message one goroutine
+// sends - user types, the library's own exported message types, and the messages that
+// Sequence / mode commands produce - reaches Update exactly once and in order; only a BatchMsg
+// (expanded into its commands) and the terminating messages do not.
+func kindsReachUpdate(out *scenOut) {
+	ctl := newRecCtl()
+	noop := func() tea.Msg { return nil }
+	msgs := []tea.Msg{
+		userMsg{4, 0},
+		tea.Sequence(noop, noop)(), // the (unexported) sequence message
+		userMsg{4, 1},
+		tea.WindowSizeMsg{Width: 80, Height: 24},
+		tea.EnableReportFocus(),
+		tea.FocusMsg{},
+		tea.BlurMsg{},
+		tea.KeyMsg{Type: tea.KeyRunes, Runes: []rune{'x'}},
+		tea.MouseMsg{X: 1, Y: 2},
+		tea.HideCursor(),
+		tea.SetWindowTitle("t")(),
+		tea.BatchMsg{noop}, // NOT passed to Update
+		tea.ClearScreen(),
+		userMsg{4, 2},
+	}
+	run := startProgram(ctl, nil, tea.WithInput(nil), tea.WithoutSignalHandler())
+	var want []string
+	for _, m := range msgs {
+		run.p.Send(m)
+		if _, isBatch := m.(tea.BatchMsg); !isBatch {
+			want = append(want, msgName(m))
+		}
+	}
+	run.p.Send(userMsg{4, 3})
+	want = append(want, "u4.3")
+	waitFor(3*time.Second, func() bool { return ctl.log.has("update-exit", "u4.3") })
+	run.p.Quit()
+	run.wait(5 * time.Second)
+	desc := "one goroutine sends user messages interleaved with a sequence message, size / focus / key / mouse / mode messages and a BatchMsg"
+	out.record("kinds-reach-update", desc)
+	var got []string
+	for _, u := range updatesOf(ctl.log.snapshot()) {
+		if !strings.HasPrefix(u, "c:") && u != "nil" {
+			got = append(got, u)
+		}
+	}
+	if strings.Join(got, " , ") != strings.Join(want, " , ") {
+		out.fail(finding{Property: "C01", Class: "new", What: "a message whose Send completed did not reach Update exactly once and in order (library-defined message kinds included; only BatchMsg is expanded instead)", Input: desc,
+			Expected: strings.Join(want, " , "), Observed: strings.Join(got, " , ")})
 	}
 }
 
@@ -415,6 +466,7 @@ func scenCmds(out *scenOut, r *rng, thorough bool) {
 	for _, n := range []int{3, 70, 300} {
 		manyBlocked(out, n)
 	}
+	manyBlocked(out, -5) // (negative: the same with WithoutCatchPanics, 5 blocked commands)
 	for _, shape := range []string{"returned-twice", "twice-in-one-tree", "batchmsg-sent-twice"} {
 		batchReuse(out, shape)
 	}
@@ -477,6 +529,13 @@ func batchReuse(out *scenOut, shape string) {
 // same Batch is invoked and its result delivered; other messages keep flowing; then every
 // blocked command completes exactly once.
 func manyBlocked(out *scenOut, n int) {
+	opts := []tea.ProgramOption{tea.WithInput(nil), tea.WithoutSignalHandler()}
+	optDesc := ""
+	if n < 0 {
+		n = -n
+		opts = append(opts, tea.WithoutCatchPanics())
+		optDesc = " (WithoutCatchPanics)"
+	}
 	ctl := newRecCtl()
 	release := make(chan struct{})
 	var started, probeRan int32
@@ -492,15 +551,15 @@ func manyBlocked(out *scenOut, n int) {
 		}
 		return nil
 	}
-	run := startProgram(ctl, nil, tea.WithInput(nil), tea.WithoutSignalHandler())
-	desc := fmt.Sprintf("Batch(nil, %d commands that block until released, nil, probe)", n)
+	run := startProgram(ctl, nil, opts...)
+	desc := fmt.Sprintf("Batch(nil, %d commands that block until released, nil, probe)%s", n, optDesc)
 	run.p.Send(userMsg{0, 0})
 	okProbe := waitFor(3*time.Second, func() bool { return ctl.log.has("update-exit", "c:probe") })
 	okStarted := waitFor(3*time.Second, func() bool { return atomic.LoadInt32(&started) == int32(n) })
 	sent := make(chan struct{})
 	go func() { run.p.Send(userMsg{0, 1}); close(sent) }()
 	okOther := waitFor(2*time.Second, func() bool { return ctl.log.has("update-exit", "u0.1") })
-	out.record(fmt.Sprintf("many-blocked/%d", n), desc)
+	out.record(fmt.Sprintf("many-blocked/%d%s", n, optDesc), desc)
 	if !okProbe {
 		out.fail(finding{Property: "C02", Class: "new", What: "a command of a Batch was not invoked (or its result not delivered) while other commands of the Batch were blocked", Input: desc,
 			Expected: "probe invoked and delivered", Observed: fmt.Sprintf("probe ran %d times, %d of %d blocking commands started", atomic.LoadInt32(&probeRan), atomic.LoadInt32(&started), n)})
@@ -866,9 +925,12 @@ func seqOnce(out *scenOut, r *rng, idx int) {
 				k = r.rangeIn(0, 2)
 			}
 			for j := 0; j < k; j++ {
-				if r.chance(1, 5) {
+				switch {
+				case r.chance(1, 5):
 					e.parts = append(e.parts, "")
-				} else {
+				case r.chance(1, 5):
+					e.parts = append(e.parts, fmt.Sprintf("%s.%d!nil", id, j)) // a command whose result is nil
+				default:
 					e.parts = append(e.parts, fmt.Sprintf("%s.%d", id, j))
 				}
 			}
@@ -908,7 +970,7 @@ func seqOnce(out *scenOut, r *rng, idx int) {
 					if e.kind == "rawbatch" {
 						d += 2 * time.Millisecond // slower than whatever follows: not awaiting it shows
 					}
-					parts = append(parts, mk(pid, d, false))
+					parts = append(parts, mk(pid, d, strings.HasSuffix(pid, "!nil")))
 				}
 			}
 			if e.kind == "rawbatch" {
@@ -975,6 +1037,7 @@ func seqOnce(out *scenOut, r *rng, idx int) {
 		}
 	}
 	elemOf[last] = len(elems)
+	nilPart := func(id string) bool { return strings.HasSuffix(id, "!nil") }
 	recvAt := map[string]int{} // id -> log index of filter-enter (event loop received it)
 	startAt := map[string]int{}
 	for i, e := range evs {
@@ -1000,7 +1063,7 @@ func seqOnce(out *scenOut, r *rng, idx int) {
 		// every message of every earlier element was received before this command started
 		for id2, k2 := range elemOf {
 			if k2 < k {
-				if isNilResult(elems, id2) {
+				if isNilResult(elems, id2) || nilPart(id2) {
 					continue
 				}
 				rc, got := recvAt[id2]
